@@ -123,6 +123,7 @@ func visibleOffsets(bs []simLogBatch, start int64, rc bool) []int64 {
 }
 
 func runConsumerScenario(t testing.TB, rec *vRec, sc *consScenario) {
+	rec = rec.Sub() // scoped to this scenario: stragglers of an abandoned run cannot pollute later traces
 	cf := sc.Cfg
 	if cf.NBrokers == 0 {
 		cf.NBrokers = 1
